@@ -795,13 +795,23 @@ try
 	    return ss.str ();
 	  } ();
 
+	uint64_t count = 0;
+	auto print_count = [&] ()
+	  {
+	    if (show_count && verbosity >= 0)
+	      {
+		if (with_header)
+		  std::cout << header << ":";
+		std::cout << std::dec << count << std::endl;
+	      }
+	  };
+
 	try
 	  {
 	    std::unique_ptr <zw_result, zw_deleter> result
 		{zw_query_execute (query.get (), stack.get (),
 				   zw_throw_on_error {})};
 
-	    uint64_t count = 0;
 	    while (auto out = zw_result_next (*result))
 	      {
 		// grep: Exit immediately with zero status if any match
@@ -831,20 +841,17 @@ try
 		  ++count;
 	      }
 
-	    if (show_count)
-	      {
-		if (with_header)
-		  std::cout << header << ":";
-		std::cout << std::dec << count << std::endl;
-	      }
+	    print_count ();
 	  }
 	catch (std::runtime_error const &e)
 	  {
+	    print_count ();
 	    error_message (no_messages, verbosity, errors)
 	      << "dwgrep: " << header << ": " << e.what () << std::endl;
 	  }
 	catch (...)
 	  {
+	    print_count ();
 	    error_message (no_messages, verbosity, errors)
 	      << "dwgrep: " << header << ": Unknown error" << std::endl;
 	  }
